@@ -25,6 +25,8 @@ def build_problem(ps):
     if kind == "boxdomain":
         _, _, n, m, kw = ps
         return gen.boxdomain_problem(rng, n, m, **kw)
+    if kind == "saddle":
+        return gen.saddle_problem(rng, ps[2], ps[3])
     if kind == "simplex":
         return gen.simplex_qp(rng, ps[2])
     if kind == "logdomain":
@@ -233,7 +235,7 @@ def _safe_run_group(gs):
     old = None
     try:
         old = signal.signal(signal.SIGALRM, _alarm)
-        signal.alarm(int(gs.get("timeout", 300)))
+        signal.alarm(int(gs.get("timeout", 150)))
     except Exception:
         old = None
     try:
